@@ -77,6 +77,48 @@ def base_name(node):
 FUNC_TYPES = (ast.FunctionDef, ast.AsyncFunctionDef)
 
 
+_MIRROR = {ast.Eq: ast.Eq, ast.NotEq: ast.NotEq, ast.Lt: ast.Gt, ast.Gt: ast.Lt, ast.LtE: ast.GtE, ast.GtE: ast.LtE}
+
+
+def _constant_like(node):
+    if isinstance(node, ast.Constant):
+        return True
+    if isinstance(node, ast.UnaryOp) and isinstance(node.op, (ast.USub, ast.UAdd)) and isinstance(node.operand, ast.Constant):
+        return True
+    if isinstance(node, (ast.Tuple, ast.List, ast.Set)) and all(_constant_like(e) for e in node.elts):
+        return True
+    return False
+
+
+class _Canon(ast.NodeTransformer):
+    """Canonical spelling of two behaviour-neutral choices, so that rules reading expression text are indifferent to them:
+    a single-operator comparison keeps a constant operand on the right and otherwise orders its operands textually
+    (`0 == x` -> `x == 0`, `b > a` -> `a < b`); an if/else whose test is a negation is turned round (`if not c: A else: B`
+    -> `if c: B else: A`)."""
+
+    def visit_Compare(self, node):  # noqa: N802
+        self.generic_visit(node)
+        if len(node.ops) == 1 and type(node.ops[0]) in _MIRROR:
+            left, right = node.left, node.comparators[0]
+            lc, rc = _constant_like(left), _constant_like(right)
+            flip = (lc and not rc) or (lc == rc and ast.unparse(left) > ast.unparse(right))
+            if flip:
+                return ast.copy_location(ast.Compare(left=right, ops=[_MIRROR[type(node.ops[0])]()], comparators=[left]), node)
+        return node
+
+    def visit_If(self, node):  # noqa: N802
+        self.generic_visit(node)
+        if node.orelse and isinstance(node.test, ast.UnaryOp) and isinstance(node.test.op, ast.Not):
+            return ast.copy_location(ast.If(test=node.test.operand, body=node.orelse, orelse=node.body), node)
+        return node
+
+    def visit_IfExp(self, node):  # noqa: N802
+        self.generic_visit(node)
+        if isinstance(node.test, ast.UnaryOp) and isinstance(node.test.op, ast.Not):
+            return ast.copy_location(ast.IfExp(test=node.test.operand, body=node.orelse, orelse=node.body), node)
+        return node
+
+
 class Module:
     def __init__(self, path, rel):
         self.path = path
@@ -90,6 +132,8 @@ class Module:
         except SyntaxError as err:
             raise AnalysisError('cannot parse {}: {}'.format(rel, err))
         self.digest = hashlib.sha256(self.src.encode('utf-8')).hexdigest()[:16]
+        if not os.environ.get('VSTAT_NO_CANON'):
+            self.tree = ast.fix_missing_locations(_Canon().visit(self.tree))
         self.parent = {}
         self.functions = {}
         self.classes = {}
